@@ -275,12 +275,17 @@ def c20(run):
     from rules import r_outbound
     P = run.prog('rel')
     r_outbound.run(run, P)
+    from rules import r_cmpbound
+    n = r_cmpbound.run(run, P, only={'match', 'coap_print_wellknown_lkd', 'coap_find_attr'})
+    run.require(n >= 4, 'R-CMP-BOUND: fewer than 4 comparisons found in the query-filter code (match, coap_print_wellknown_lkd, coap_find_attr)')
     run.min_instances('R-OUT-BOUND', 10)
-    run.assumptions = ASSUME_COMMON + ["window / total / truncation-flag exactness and the filter semantics are NOT decided"]
+    run.assumptions = ASSUME_COMMON + ["window / total / truncation-flag exactness are NOT decided; of the filter semantics only 'a token is compared over its own length' is"]
     return run.finish(
-        "One clause of C20 is decided: the listing is never written behind the window the caller supplied. Every store through the output cursor "
+        "Two clauses of C20 are decided: the listing is never written behind the window the caller supplied. Every store through the output cursor "
         "of coap_print_link / coap_print_wellknown_lkd happens on a path that holds cursor < end for the current cursor value, and the space handed "
-        "down to coap_print_link is end - cursor of the current cursor (R-OUT-BOUND).")
+        "down to coap_print_link is end - cursor of the current cursor (R-OUT-BOUND). Filter: every comparison of the query pattern with an attribute value, "
+        "a space-separated token of it or a path is bounded by, and an exact match is decided against, the length of the string actually compared "
+        "(R-CMP-BOUND).")
 
 
 def c19(run):
@@ -326,6 +331,9 @@ def c02(run):
     r_stream.run_cap(run, P)
     r_parsegate.run(run, P)
     r_fixup.run_stale(run, P)
+    from rules import r_cmpbound
+    r_cmpbound.run(run, P)
+    run.min_instances('R-CMP-BOUND', 40)
     run.min_instances('R-RANGE', 12)
     run.min_instances('R-STREAM-CAP', 4)
     run.min_instances('R-PARSE-GATE', 15)
